@@ -39,8 +39,37 @@ import (
 	"github.com/kstenerud/go-concise-encoding/types"
 )
 
+// A Go location is written as an area/location time zone, which the receiving
+// side looks up by name. That only works for names the time zone database
+// knows. Everything else - time.FixedZone, or what time.Parse makes of
+// "+01:00" - is identified by its UTC offset alone.
+func asCompactTime(t time.Time) compact_time.Time {
+	location := t.Location()
+	if location == time.UTC || location == time.Local {
+		return compact_time.AsCompactTime(t)
+	}
+
+	_, offsetSeconds := t.Zone()
+	if known, err := time.LoadLocation(location.String()); err == nil {
+		// The receiving side rebuilds the time from its wall clock fields. That must
+		// give this instant again (it doesn't for the repeated hour at the end of
+		// daylight saving time, or when a fixed zone merely borrows a known name).
+		rebuilt := time.Date(t.Year(), t.Month(), t.Day(), t.Hour(), t.Minute(), t.Second(), t.Nanosecond(), known)
+		if rebuilt.Equal(t) {
+			return compact_time.AsCompactTime(t)
+		}
+	}
+
+	if offsetSeconds%60 != 0 {
+		// UTC offsets are whole minutes. Keep the instant.
+		return compact_time.AsCompactTime(t.UTC())
+	}
+	return compact_time.NewTimestamp(t.Year(), int(t.Month()), t.Day(), t.Hour(), t.Minute(), t.Second(), t.Nanosecond(),
+		compact_time.TZWithMiutesOffsetFromUTC(offsetSeconds/60))
+}
+
 func iterateTime(context *Context, v reflect.Value) {
-	context.EventReceiver.OnTime(compact_time.AsCompactTime(v.Interface().(time.Time)))
+	context.EventReceiver.OnTime(asCompactTime(v.Interface().(time.Time)))
 }
 
 func iteratePTime(context *Context, v reflect.Value) {
@@ -48,7 +77,7 @@ func iteratePTime(context *Context, v reflect.Value) {
 		context.NotifyNil()
 	} else {
 		t := v.Interface().(*time.Time)
-		context.EventReceiver.OnTime(compact_time.AsCompactTime(*t))
+		context.EventReceiver.OnTime(asCompactTime(*t))
 	}
 }
 
